@@ -11,8 +11,8 @@
 #include <map>
 #include <set>
 
-enum Kind { ADD_EDGE, ADD_MULTI, REMOVE_EDGE, FIND_EDGE, UPD_NODE, UPD_EDGE, SORT_EDGES, REMOVE_NODE, ADD_NODE, NKIND };
-static const char* kind_names[] = {"addEdge", "addMultiEdge", "removeEdge", "findEdge", "getData-update", "getEdgeData-update", "sortEdgesByDst", "removeNode", "addNode"};
+enum Kind { ADD_EDGE, ADD_MULTI, REMOVE_EDGE, FIND_EDGE, UPD_NODE, UPD_EDGE, SORT_EDGES, REMOVE_NODE, ADD_NODE, UPD_NBRS, NKIND };
+static const char* kind_names[] = {"addEdge", "addMultiEdge", "removeEdge", "findEdge", "getData-update", "getEdgeData-update", "sortEdgesByDst", "removeNode", "addNode", "out_edges-update-neighbours"};
 struct Mut { int kind, a, b, v; int observed; uint64_t seq; int commits; int yields; int nolock; };
 static std::vector<Mut> muts;
 static uint64_t commit_counter;   // exact commit order (vsim_step() only advances at decision points)
@@ -50,6 +50,13 @@ struct Run {
     case UPD_EDGE: { if (!g.containsNode(a, F)) return -2; auto it = g.findEdge(a, b, F); if (it == g.edge_end(a, F)) return 0; auto& d = g.getEdgeData(it); d = d * 7 + m.v; return 1; }
     case SORT_EDGES: { if (!g.containsNode(a, F)) return -2; if constexpr (!NOLOCK) g.sortEdgesByDst(a, F); /* does not compile for HasNoLockable graphs (unqualified acquire) */ return 1; }
     case REMOVE_NODE: { if (!g.containsNode(a, F)) return -2; g.removeNode(a, F); return 1; }
+    case UPD_NBRS: {
+      // neighbourhood operator through the out_edges() range adaptor: the adaptor acquires the node and its out-neighbours,
+      // afterwards the neighbours are updated without further protection (non-commutative, with a yield inside the update)
+      if (!g.containsNode(a, F)) return -2;
+      std::vector<GN> ns; for (auto e : g.out_edges(a, F)) ns.push_back(g.getEdgeDst(e));
+      for (GN d : ns) { auto& x = g.getData(d, galois::MethodFlag::UNPROTECTED); long old = x; if (m.yields) vsim_yield(); x = old * 31 + m.v; }
+      return (int)ns.size(); }
     default: { g.addNode(a, F); return 1; }
     }
   }
@@ -140,7 +147,8 @@ static void scenario(const char* flavour) {
     m.a = (int)wl_range(0, wl_chance(50) ? hot - 1 : n - 1); m.b = (int)wl_range(0, wl_chance(50) ? hot - 1 : n - 1); m.v = (int)wl_range(1, 99); m.yields = wl_chance(40) ? (int)wl_range(1, 3) : 0;
     if (m.kind == REMOVE_NODE && (wl_chance(60) || removed.size() + 2 >= (size_t)n)) m.kind = UPD_NODE;
     if (m.kind == REMOVE_NODE) removed.insert(m.a);
-    m.nolock = (!NOLOCK && m.kind == FIND_EDGE && wl_chance(60)) ? 1 : 0;
+    if (m.kind == UPD_NBRS && NOLOCK) m.kind = UPD_NODE;
+    m.nolock = (!NOLOCK && ((m.kind == FIND_EDGE && wl_chance(60)) || m.kind == UPD_NBRS)) ? 1 : 0;   // the neighbourhood operator always relies on the adaptor's own acquisition
     if (m.kind == ADD_NODE) { if (next_spare < spare) { m.a = n + next_spare++; m.b = m.a; } else m.kind = ADD_EDGE; }   // a node is added at most once, removed nodes are never re-added
     muts.push_back(m);
   }
